@@ -104,8 +104,17 @@ Definition rs_copy_range (dst : bytes) (lo hi : nat) (src : bytes) : M bytes :=
   if Nat.leb lo hi && Nat.leb hi (length dst) && Nat.eqb (length src) (hi - lo)
   then Val (firstn lo dst ++ src ++ skipn hi dst) else Panic.
 (* &v[lo..hi]: panics unless lo <= hi <= len *)
-Definition rs_slice (v : bytes) (lo hi : nat) : M bytes :=
+Definition rs_slice {A} (v : list A) (lo hi : nat) : M (list A) :=
   if Nat.leb lo hi && Nat.leb hi (length v) then Val (firstn (hi - lo) (skipn lo v)) else Panic.
+(* v[i]: panics when out of range *)
+Definition rs_index {A} (v : list A) (i : nat) : M A :=
+  match nth_error v i with Some a => Val a | None => Panic end.
+(* iter().all(|x| ..) with a closure that can panic: stops at the first false *)
+Fixpoint rs_allM {A} (f : A -> M bool) (l : list A) : M bool :=
+  match l with
+  | [] => Val true
+  | a :: l' => b <- f a ;; if b then rs_allM f l' else Val false
+  end.
 
 (* ---- results / options ---- *)
 Definition rs_map_err {A} (r : res A) (e : err) : res A :=
